@@ -269,8 +269,23 @@ class ParseModel(object):
                     self.lam['binary'] = name
                 elif self.p_un in refs:
                     self.lam['unary'] = name
+        # ... or one lookup function (at namespace scope) that gets the callback as an argument
+        self.lookup_fn = None
         if set(self.lam) != {'binary', 'unary'}:
-            raise AnalysisError('%s: callback lambdas not found' % H)
+            for key, fnode in self.decls.items():
+                if not key.startswith('fn:'):
+                    continue
+                fps = [p_.name for p_ in cxx.params_of(fnode)]
+                fenv = cxx.Env(fnode)
+                for c in fnode.find('CallExpr'):
+                    callee = strip(c.kids[0])
+                    if callee.ref in fps and len(c.kids) == 5:
+                        a = [term(x, fenv) for x in c.kids[1:]]
+                        if all(x[0] == 'var' and x[1] in fps for x in a[:3]):
+                            self.lookup_fn = {'name': key[3:], 'node': fnode, 'params': fps, 'scaffold': callee.ref,
+                                              'cb': a[0][1], 'x': a[1][1], 'y': a[2][1]}
+            if self.lookup_fn is None:
+                raise AnalysisError('%s: callback lambdas / rule lookup function not found' % H)
 
         # outside-estimate plumbing: compute_outside_probabilities(vec, length, mat)
         self.outside = []   # (vec, mat)
@@ -284,11 +299,39 @@ class ParseModel(object):
                                 % (H, len(self.outside)))
         # top-level loops
         self.loops = [st for st in self.top if st.kind == 'ForStmt']
-        if len(self.loops) != 3:
-            raise AnalysisError('%s: expected 3 top-level for loops (init, leaves, search), found %d'
+        if len(self.loops) < 3:
+            raise AnalysisError('%s: expected at least 3 top-level for loops (initialisation, leaves, search), found %d'
                                 % (H, len(self.loops)))
-        self.init_loop, self.leaf_loop, self.main_loop = self.loops
+        # roles: the search loop is the last one, the seeding loop the one before it, every loop before that initialises
+        # per-token tables (one loop, or one per table)
+        self.main_loop = self.loops[-1]
+        self.leaf_loop = self.loops[-2]
+        self.init_loops = self.loops[:-2]
+        self.init_loop = self.init_loops[0]
         self._init_loop_roles()
+
+    def rules_call(self, t):
+        """canonical spelling of a rule lookup: ('call', 'rules:binary', (x, y)) / ('call', 'rules:unary', (x,)); other
+        terms are returned unchanged (recursively inside deref)"""
+        if t is None:
+            return t
+        if t[0] == 'deref':
+            return ('deref', self.rules_call(t[1]))
+        if t[0] == 'call' and isinstance(t[1], str):
+            for kind in ('binary', 'unary'):
+                if kind in self.lam and t[1] == 'lambda:' + self.lam[kind]:
+                    return ('call', 'rules:' + kind, t[2])
+            lf = self.lookup_fn
+            if lf is not None and t[1] == lf['name'] and len(t[2]) == len(lf['params']):
+                b = dict(zip(lf['params'], t[2]))
+                cb = b[lf['cb']]
+                if cb == V(self.p_bin):
+                    return ('call', 'rules:binary', (b[lf['x']], b[lf['y']]))
+                if cb == V(self.p_un):
+                    y = b[lf['y']]
+                    const_y = not [x for x in cxx.subterms(y) if x[0] in ('var', 'mem', 'call', 'mcall', 'idx')]
+                    return ('call', 'rules:unary' if const_y else 'rules:unary-with-second-id', (b[lf['x']],))
+        return t
 
     def _one_local(self, pred, what):
         c = [n for n, d in self.locals.items() if pred(d)]
@@ -314,17 +357,25 @@ class ParseModel(object):
         var, lo, cond, step_ok, body = self._loop_header(self.init_loop)
         self.init_var = var
         self.init_header = (lo, cond, step_ok)
+        self.init_headers = []
         self.BT = self.BD = self.DALL = None
         self.init_assigns = []
-        for n in body.walk():
-            tgt = val = op = None
-            if n.kind in ('BinaryOperator', 'CompoundAssignOperator') and n.op in ('=', '+=', '-='):
-                tgt, val, op = term(n.kids[0], env), term(n.kids[1], env), n.op
-            elif n.kind == 'CXXOperatorCallExpr' and strip(n.kids[0]).ref in ('operator=', 'operator+='):
-                tgt, val, op = term(n.kids[1], env), term(n.kids[2], env), strip(n.kids[0]).ref[8:]
-            if tgt is None:
-                continue
-            self.init_assigns.append((tgt, op, val, n))
+        self.init_vars = {}
+        for loop in self.init_loops:
+            v_i, lo_i, cond_i, step_i, body_i = self._loop_header(loop)
+            ren = {('var', v_i): ('var', var)}
+            self.init_vars[id(loop)] = v_i
+            self.init_headers.append((loop, lo_i, cxx.subst(cond_i, ren), step_i))
+            for n in body_i.walk():
+                tgt = val = op = None
+                if n.kind in ('BinaryOperator', 'CompoundAssignOperator') and n.op in ('=', '+=', '-='):
+                    tgt, val, op = term(n.kids[0], env), term(n.kids[1], env), n.op
+                elif n.kind == 'CXXOperatorCallExpr' and strip(n.kids[0]).ref in ('operator=', 'operator+='):
+                    tgt, val, op = term(n.kids[1], env), term(n.kids[2], env), strip(n.kids[0]).ref[8:]
+                if tgt is None:
+                    continue
+                # all initialisation loops run over the same token index: spell it with the first loop's variable
+                self.init_assigns.append((cxx.subst(tgt, ren), op, cxx.subst(val, ren), n))
         best_tag = M(('mcall', IDX(V(self.scored), V(var)), 'top', ()), 'first')
         self.best_tag_term = best_tag
         argmax = ('mcall', V(self.DEP), 'argmax', (V(var),))
